@@ -274,13 +274,23 @@ class Verdicts:
         self.known = load_known()
         self.known_hits = {}     # key -> count
         self.violations = []     # (obs, replay_path)
+        self._seen = {}
 
     def report(self, obs, replay=None):
-        """obs: dict describing the failing thing (used for matching known findings)."""
+        """obs: dict describing the failing thing (used for matching known findings).
+        `replay` may be a callable producing the replay body (evaluated once per distinct obs).
+        Identical observations are counted, not repeated."""
         for e in self.known:
             if _match_entry(e, self.prop, obs):
                 self.known_hits[e["key"]] = self.known_hits.get(e["key"], 0) + 1
                 return "known"
+        key = json.dumps(obs, sort_keys=True, default=str)
+        if key in self._seen:
+            self._seen[key] += 1
+            return "violation"
+        self._seen[key] = 1
+        if callable(replay):
+            replay = replay()
         path = self._write_replay(obs, replay)
         self.violations.append((obs, path))
         return "violation"
@@ -302,7 +312,7 @@ class Verdicts:
                       (self.prop, e.get("what", e["key"]), self.known_hits[e["key"]]))
         for obs, path in self.violations[:max_lines]:
             print("VIOLATION property=%s replay=%s" % (self.prop, path))
-            log("  ", json.dumps(obs, default=str)[:600])
+            log("   x%d %s" % (self._seen.get(json.dumps(obs, sort_keys=True, default=str), 1), json.dumps(obs, default=str)[:300]))
         if len(self.violations) > max_lines:
             log("  ... %d more violations" % (len(self.violations) - max_lines))
         sys.stdout.flush()
